@@ -88,6 +88,9 @@ fn specs(which: Which, prop: &str, thorough: bool) -> Vec<Spec> {
                 }
             }
             if prop == "C13" {
+                for n in [1usize, 1, 3] {
+                    v.push(Spec { sizes: vec![n], wf: n == 1, sec: 128, rho_inv: 4, kind: 2 });
+                }
                 for n in [200usize, 300, 512] {
                     v.push(Spec { sizes: vec![n], wf: true, sec: 128, rho_inv: 4, kind: 0 });
                     v.push(Spec { sizes: vec![n], wf: false, sec: 128, rho_inv: 2, kind: 0 });
@@ -965,6 +968,36 @@ fn c13_columns<S: Lc>(ctx: &mut Ctx, id: &str, rng: &mut Rng, spec: &Spec) {
         ctx.rep.case(&format!("{} column mutation {:?}", describe(run), m), Some(format!("{}/columns/{:?}/{:?}/{}", S::NAME, m, spec.sizes, spec.wf)));
     }
     repeated_slot_tamper::<S>(ctx, id, spec, run);
+    all_slots_from_first::<S>(ctx, id, spec, run);
+}
+
+/// Every slot of the opening overwritten with slot 0 (its column AND its path): one authenticated position
+/// repeated t times.  For a constant codeword (constant polynomials) the inner-product tests cannot tell, only
+/// the comparison of each path's leaf index with ITS OWN transcript position can.
+fn all_slots_from_first<S: Lc>(ctx: &mut Ctx, id: &str, spec: &Spec, run: &Run<S>) {
+    let cid = format!("{}/all-slots-from-first", id);
+    let p0 = &run.proof[0];
+    let c = &run.comms[0];
+    let (_r, idx, _) = match transcript::<S>(&run.pp, c, &run.point, &p0.opening.v, &p0.well_formedness, &run.pre) {
+        Some(x) => x,
+        None => return,
+    };
+    if idx.len() < 2 || idx.iter().all(|q| *q == idx[0]) || p0.opening.columns.len() != idx.len() || p0.opening.paths.len() != idx.len() {
+        return;
+    }
+    let mut proof = run.proof.clone();
+    for j in 1..idx.len() {
+        proof[0].opening.columns[j] = p0.opening.columns[0].clone();
+        proof[0].opening.paths[j] = p0.opening.paths[0].clone();
+    }
+    let out = decide::<S>(ctx, &cid, &run.pp, &run.comms, &run.point, &run.values, &proof, &run.pre);
+    if out.accepted() {
+        ctx.rep.expect_fail(&cid, &format!("lincode/unauthenticated-column-accepted/{}/one-position-repeated", S::NAME),
+            &format!("a proof whose {} slots all carry the column and path of ONE position was accepted", idx.len()),
+            replay::<S>(&cid, ctx.seed, spec, &describe(run)));
+    }
+    ctx.rep.count(&format!("{}/all-slots-from-first", S::NAME));
+    ctx.rep.case(&format!("{} all slots from the first -> {:?}", describe(run), out), Some(format!("{}/all-from-first/{:?}/{}", S::NAME, spec.sizes, spec.kind)));
 }
 
 /// Positions are sampled with replacement, so a position may be opened in several slots of one proof.  EVERY
